@@ -37,16 +37,16 @@ def build(reg):
          # "at the FIRST small term" is pinned
          ensures={"partial_sum": "k >= 1 and result == psum(s, k)", "cut_at_a_term_below_the_tolerance": f"abs(1.0 / rpow(k, s)) < {TOL}"},
          loops={0: dict(inv={"k": "k >= 1", "sum": "l == psum(s, k - 1)", "tol": f"0 < tol and tol <= {TOL}"})})
-    m.fn("power_law.p", params={"k": INT, "alpha": REAL, "C": REAL}, ghost=["alpha", "C"], ret=REAL, requires={"C": "C != 0"}, ensures={"formula": "result == rpow(k, -alpha) / C"})
+    m.fn("power_law.p", params={"k": INT, "alpha": REAL, "C": REAL}, ghost=["alpha", "C"], ret=REAL, requires={"C": "C != 0", "support": "k >= 1"}, ensures={"formula": "result == rpow(k, -alpha) / C"})      # the statement speaks of k >= 1 only
     ms = reg.module("gcmpy/distributions/scale_free_cut_off.py")
     ms.fn("scale_free_cut_off.polylog", params={"s": REAL, "z": REAL}, ret=REAL,
           ensures={"partial_sum": "k >= 1 and result == plsum(s, z, k)",
                    "cut_at_a_term_below_the_tolerance": f"abs(zpow(z, k) / rpow(k, s)) < {TOL}"},
           loops={0: dict(inv={"k": "k >= 1", "sum": "l == plsum(s, z, k - 1)", "zk": "zk == zpow(z, k)", "tol": f"0 < tol and tol <= {TOL}"})})
     ms.fn("scale_free_cut_off.p", params={"k": INT, "alpha": REAL, "kappa": REAL, "C": REAL}, ghost=["alpha", "kappa", "C"], ret=REAL,
-          requires={"C": "C != 0", "kappa": "kappa != 0"}, ensures={"formula": "result == rpow(k + 0.0, -alpha) * exp(-(k + 0.0) / kappa) / C"})
+          requires={"C": "C != 0", "kappa": "kappa != 0", "support": "k >= 1"}, ensures={"formula": "result == rpow(k + 0.0, -alpha) * exp(-(k + 0.0) / kappa) / C"})
     mx = reg.module("gcmpy/distributions/exponential.py")
-    mx.fn("exponential.p", params={"k": INT, "a": REAL}, ghost=["a"], ret=REAL, ensures={"formula": "result == (1 - exp(-a)) * exp(-a * k)"})
+    mx.fn("exponential.p", params={"k": INT, "a": REAL}, ghost=["a"], ret=REAL, requires={"support": "k >= 0"}, ensures={"formula": "result == (1 - exp(-a)) * exp(-a * k)"})
     mp = reg.module("gcmpy/distributions/poisson.py")
     mp.fn("poisson.p", params={"k": INT, "kmean": REAL}, ghost=["kmean"], ret=REAL, requires={"support": "k >= 0"},
           ensures={"formula": "result == exp(-kmean) * rpow(kmean, k) / fact(k)"})
